@@ -234,6 +234,19 @@ def gen_many_groups(rng):
     return [(b"a", code)], ["sort", FLAGS[code], "a"], recs
 
 
+FRACS = [b"0.5", b"0.25", b"0.9", b"0.1", b"0.75", b"0.3", b"1.5", b"2", b"2.25", b"3.5", b"-0.2", b"-0.45", b"0.26", b"1e-3", b"0.0011", b"7"]
+UDF_BODIES = ["{x} - {y}", "({x} - {y}) / 10", "({x} - {y}) * 0.001", "({x} - {y}) * 1000000", "{x} <=> {y}", "({x} <=> {y}) / 4", "({x} <=> {y}) * 2.5e9",
+              "({x} - {y}) / 1024.0"]
+
+
+def udf_comparator(rng, x, y, prefix="c"):
+    """(flag code, function name, body).  Distinct names per body: the in-process driver shares one UDF table."""
+    i = rng.randrange(len(UDF_BODIES))
+    desc = rng.random() < 0.5
+    body = UDF_BODIES[i].format(x=y, y=x) if desc else UDF_BODIES[i].format(x=x, y=y)
+    return (5 if desc else 4), "%s%d%s" % (prefix, i, "d" if desc else "a"), body
+
+
 DSL_FLAGS = [("f", 0), ("fr", 1), ("c", 8), ("cr", 9), ("", 4), ("n", 4), ("nr", 5), ("t", 10), ("tr", 11), ("rc", 9), ("rt", 11)]
 
 
@@ -243,18 +256,17 @@ def gen_dsl_case(rng):
         code = 4
         pool = rng.sample(STRS + NUMS, 12)
         prog = '@a[NR] = $v; end { for (e in sort_collection(get_values(@a))) { emit1 {"v": e} } }'
-    elif mode < 0.75:
+    elif mode < 0.62:
         fl, code = rng.choice(DSL_FLAGS)
         pool = NATS if code in (10, 11) else rng.sample(STRS + NUMS, 12)
         prog = '@a[NR] = $v; end { for (e in sort(get_values(@a), "%s")) { emit1 {"v": e} } }' % fl
     else:
-        # user comparator: '<=>' on numbers is the numeric order (on mixed number/string operands it is the DSL's
-        # string comparison, which is not an ordering -- outside the property's domain).  Distinct function names:
-        # the in-process driver shares one UDF table between requests.
-        code = rng.choice([4, 5])
-        pool = rng.sample(NUMS, 10)
-        fn = "fasc" if code == 4 else "fdesc"
-        body = "a <=> b" if code == 4 else "b <=> a"
+        # user comparator.  Documented contract: "returning < 0, 0, or > 0 as a < b, a == b, or a > b" -- ANY negative / zero /
+        # positive number: subtraction-style comparators give fractions in (-1, 1) for close values and huge magnitudes
+        # for scaled ones.  On numbers every body below has the sign of the numeric order.  ('<=>' on mixed number/string
+        # operands is the DSL's string comparison, not an ordering -- outside the property's domain.)
+        code, fn, body = udf_comparator(rng, "a", "b")
+        pool = rng.sample(NUMS + FRACS, 12)
         prog = 'func %s(a, b) { return %s } @a[NR] = $v; end { for (e in sort(get_values(@a), %s)) { emit1 {"v": e} } }' % (fn, body, fn)
     n = rng.choice([1, 2, 3, 8, 15])
     recs = [[(b"v", rng.choice(pool))] for _ in range(n)]
@@ -271,19 +283,19 @@ def gen_map_case(rng):
     n = rng.choice([1, 2, 5, 9, 14])
     by_value = rng.random() < 0.55
     mode = rng.random()
-    if mode < 0.2:
-        # user comparator on numeric values / numeric keys: '<=>' is the numeric order there
-        desc = rng.random() < 0.5
+    if mode < 0.35:
+        # user comparator (four arguments): any negative / zero / positive result, see udf_comparator
         if by_value:
             keys = rng.sample(MAPKEYS_STR, min(n, len(MAPKEYS_STR)))
-            vals = [rng.choice(NUMS) for _ in keys]
-            fn, body = ("mvdesc", "bv <=> av") if desc else ("mvasc", "av <=> bv")
+            vals = [rng.choice(NUMS + FRACS) for _ in keys]
+            code, fn, body = udf_comparator(rng, "av", "bv", prefix="mv")
         else:
+            desc = rng.random() < 0.5
             keys = rng.sample(MAPKEYS_STR + [b"1", b"10", b"9"], min(n, 12))      # map keys reach the function as strings
             vals = [rng.choice(STRS) for _ in keys]
             fn, body = ("mkdesc", "bk <=> ak") if desc else ("mkasc", "ak <=> bk")
+            code = 1 if desc else 0
         prog = "func %s(ak, av, bk, bv) { return %s } $* = sort($*, %s)" % (fn, body, fn)
-        code = (5 if desc else 4) if by_value else (1 if desc else 0)
     else:
         fl, code = rng.choice(DSL_FLAGS)
         nat = code in (10, 11)
@@ -368,7 +380,8 @@ def term(kind, ks, inp, out):
 def run(ctx):
     ctx.cov["rule"] = ("seeded streams of 0..24 records with 1..3 sort keys drawn from 8 flag kinds (all spellings incl. the split -n -f / -c -r / -t -r forms), "
                        "values: ints, floats, hex, exponent forms, numerically-equal-textually-different (1, 1.0, 0x1, 1e0), empties, mixed-case strings, values with commas, "
-                       "missing keys, > 12 distinct equal-comparing groups; DSL sort(array, flags | UDF); sort-within-records. The verified Coq checker is run on the implementation's "
+                       "missing keys, > 12 distinct equal-comparing groups (verb cases with context NR values that are not the arrival index); DSL sort(array | map, flags | user "
+                       "comparator whose results are fractions in (-1,1), -1/0/1 or huge magnitudes: a-b, (a-b)/10, (a-b)*1e6, (a<=>b)/4 ...), sort_collection; top -a; sort-within-records. The verified Coq checker is run on the implementation's "
                        "output; a case is non-trivial when (flags, input) is distinct")
     ctx.cov["trusted_base"] = ["Coq 8.16.1 kernel + vm_compute", "no axioms (Print Assumptions: closed under the global context)",
                                "type inference: the C06 model (tied by the C06 check) instantiated with digit tables regenerated from /repo",
@@ -411,7 +424,8 @@ def run(ctx):
         cases.append(("swr", [], ["sort-within-records"], recs))
         ctx.dist("sort-within-records")
     with ctx.timed("impl"):
-        obs = c11.run_verbs(ctx, [(c[2], c[3]) for c in cases])
+        # verbs (not the DSL programs, which index by NR themselves) also get records whose context NR is not the arrival index
+        obs = c11.run_verbs(ctx, [(c[2], c[3], c11.gen_nrs(rng, len(c[3])) if c[0] in ("sort", "groups", "top", "swr") else None) for c in cases])
     terms, meta, oracle_bad, stable_terms, stable_meta = [], [], [], [], []
     for (kind, ks, args, inp), (st, out, err) in zip(cases, obs):
         ctx.count((kind, args, inp))
@@ -525,6 +539,17 @@ def fixed_probes(ctx, oracle_bad):
     probe(["sort", "-c", "y"], ["y:1E2", "y:1e0"], ["y:1e0", "y:1E2"], "ordered by the keys in precedence order (case-folded)", "sort-c-does-not-fold-number-like-text")
     probe(["sort", "-f", "a", "-f", "b"], ["a:x,y;b:z;i:0", "a:x;b:zz;i:1", "a:x;b:y,z;i:2"], ["a:x;b:y,z;i:2", "a:x;b:zz;i:1", "a:x,y;b:z;i:0"],
           "ordered by the keys in precedence order", "grouping-key-comma-collision")
+    # user comparators returning fractions / large magnitudes (contract: any negative, zero or positive number)
+    for pi, (body, vals, want) in enumerate((("a - b", ["0.5", "0.25", "0.9", "0.1", "0.75", "0.3"], ["0.1", "0.25", "0.3", "0.5", "0.75", "0.9"]),
+                             ("b - a", ["0.5", "0.25", "0.9", "0.1", "0.75", "0.3"], ["0.9", "0.75", "0.5", "0.3", "0.25", "0.1"]),
+                             ("a - b", ["3.5", "2", "7", "2.25", "1.5", "3"], ["1.5", "2", "2.25", "3", "3.5", "7"]),
+                             ("(a - b) / 10", ["5", "2", "7", "1", "6", "3", "4"], ["1", "2", "3", "4", "5", "6", "7"]),
+                             ("(a - b) * 1000000000", ["5", "2", "7", "1"], ["1", "2", "5", "7"]))):
+        fn = "pf%d" % pi
+        probe(["put", "-q", 'func %s(a, b) { return %s } @a[NR] = $v; end { for (e in sort(get_values(@a), %s)) { emit1 {"v": e} } }' % (fn, body, fn)],
+              ["v:" + x for x in vals], ["v:" + x for x in want], "sort(array, function): ordered by the sign of the comparator's result (any magnitude)", "other")
+    probe(["put", "func pmv(ak, av, bk, bv) { return bv - av } $* = sort($*, pmv)"], ["a:0.5;b:0.25;c:0.9;d:0.1"], ["c:0.9;a:0.5;b:0.25;d:0.1"],
+          "sort(map, function): ordered by the sign of the comparator's result (any magnitude)", "other")
     # DSL sort of a map by its keys under the default (numeric) collation
     for keys in ([b"1a", b"9", b"10"], [b"10", b"9", b"1a"], [b"b", b"2", b"10", b"a"]):
         rec = [[(k, b"v") for k in keys]]
